@@ -147,3 +147,104 @@ Proof.
   intros HR. eapply (reachable_inv glob loc (tstep P) (Inv0 P)); [apply Inv0_step| |exact HR].
   apply Inv0_init.
 Qed.
+
+(* ---------- which step emits which event ---------- *)
+Lemma lobj_inj l l' : lobj l = lobj l' -> l = l'.
+Proof. unfold lobj. lia. Qed.
+
+Lemma dispatch_events P g lc o r g' lc' es e :
+  dispatch P g lc o r = (g', lc', es) -> In e es ->
+  ek e = K_INVOKE \/ ek e = K_RET \/ ek e = K_CATCH \/ ek e = K_FAULT.
+Proof.
+  intros H Hin. disp_cases H; cbn in Hin;
+    repeat (destruct Hin as [<-|Hin]; [cbn; auto|]); contradiction.
+Qed.
+
+(* a load event is emitted exactly by the load step of isTripped, with the value the model read *)
+Lemma load_event P t c g lc g' lc' es ob v m :
+  tstep P t c g lc = Some (g', lc', es) -> In (Ev K_LOAD ob v m) es ->
+  exists l k, at_ lc = P_load l k /\ ob = lobj l /\ v = load_val P t c l g /\ g' = do_load P t c l g.
+Proof.
+  intros Hs Hin. unfold tstep in Hs. destruct (at_ lc) eqn:Hpc.
+  - destruct (prog lc); [discriminate|]. inversion Hs as [Hd]. 
+    destruct (dispatch_events _ _ _ _ _ _ _ _ _ Hd Hin) as [E|[E|[E|E]]]; cbn in E; discriminate.
+  - inversion Hs; subst. cbn in Hin. destruct Hin as [E|[E|[]]]; discriminate.
+  - exists l, k. split; [reflexivity|].
+    destruct k as [d|]; [destruct (load_val P t c l g =? 0)|]; inversion Hs; subst; cbn in Hin;
+      repeat (destruct Hin as [E|Hin]; [inversion E; subst; auto; try discriminate|]); try contradiction.
+  - unfold do_wbeg, wbeg_faults in Hs. cbn in Hs. inversion Hs; subst.
+    apply in_app_or in Hin as [Hin|[E|[]]]; [|discriminate].
+    apply in_app_or in Hin as [Hin|Hin];
+      [destruct (0 <? crd (cells g d))%nat|destruct (cdirty (cells g d))]; cbn in Hin;
+      try contradiction; destruct Hin as [E|[]]; discriminate.
+  - inversion Hs; subst. cbn in Hin. destruct Hin as [E|[E|[]]]; discriminate.
+  - unfold do_rbeg in Hs. cbn in Hs. inversion Hs; subst.
+    apply in_app_or in Hin as [Hin|[E|[]]]; [|discriminate].
+    destruct (cdirty (cells g d)); cbn in Hin; try contradiction; destruct Hin as [E|[]]; discriminate.
+  - unfold do_rend in Hs. cbn in Hs. inversion Hs; subst.
+    apply in_app_or in Hin as [Hin|[E|[]]]; [|discriminate].
+    apply in_app_or in Hin as [Hin|[E|[]]]; [|discriminate].
+    destruct (cdirty (cells g d)); cbn in Hin; try contradiction; destruct Hin as [E|[]]; discriminate.
+Qed.
+
+(* a store event is emitted exactly by the store step of ~TripWireTrigger, always with value true *)
+Lemma store_event P t c g lc g' lc' es ob v m :
+  tstep P t c g lc = Some (g', lc', es) -> In (Ev K_STORE ob v m) es ->
+  exists l, at_ lc = P_store l /\ ob = lobj l /\ v = 1 /\ g' = do_store P t l g.
+Proof.
+  intros Hs Hin. unfold tstep in Hs. destruct (at_ lc) eqn:Hpc.
+  - destruct (prog lc); [discriminate|]. inversion Hs as [Hd].
+    destruct (dispatch_events _ _ _ _ _ _ _ _ _ Hd Hin) as [E|[E|[E|E]]]; cbn in E; discriminate.
+  - inversion Hs; subst. cbn in Hin. destruct Hin as [E|[E|[]]]; [|discriminate].
+    inversion E; subst. exists l. auto.
+  - destruct k as [d|]; [destruct (load_val P t c l g =? 0)|]; inversion Hs; subst; cbn in Hin;
+      repeat (destruct Hin as [E|Hin]; [discriminate|]); contradiction.
+  - unfold do_wbeg, wbeg_faults in Hs. cbn in Hs. inversion Hs; subst.
+    apply in_app_or in Hin as [Hin|[E|[]]]; [|discriminate].
+    apply in_app_or in Hin as [Hin|Hin];
+      [destruct (0 <? crd (cells g d))%nat|destruct (cdirty (cells g d))]; cbn in Hin;
+      try contradiction; destruct Hin as [E|[]]; discriminate.
+  - inversion Hs; subst. cbn in Hin. destruct Hin as [E|[E|[]]]; discriminate.
+  - unfold do_rbeg in Hs. cbn in Hs. inversion Hs; subst.
+    apply in_app_or in Hin as [Hin|[E|[]]]; [|discriminate].
+    destruct (cdirty (cells g d)); cbn in Hin; try contradiction; destruct Hin as [E|[]]; discriminate.
+  - unfold do_rend in Hs. cbn in Hs. inversion Hs; subst.
+    apply in_app_or in Hin as [Hin|[E|[]]]; [|discriminate].
+    apply in_app_or in Hin as [Hin|[E|[]]]; [|discriminate].
+    destruct (cdirty (cells g d)); cbn in Hin; try contradiction; destruct Hin as [E|[]]; discriminate.
+Qed.
+
+(* the value a load returns: 1 iff it read a real message (given one-way), 0 for the initial value *)
+Lemma load_val_cases P t c l g :
+  (forall m, In m (hs g l) -> mval m = 1) ->
+  (load_val P t c l g = 1 /\ (load_idx P t c l g < length (hs g l))%nat) \/
+  (load_val P t c l g = 0 /\ (length (hs g l) <= load_idx P t c l g)%nat).
+Proof.
+  intros Hone. unfold load_val, read_val. destruct (nth_error (hs g l) (load_idx P t c l g)) as [m|] eqn:E.
+  - left. split; [apply Hone; eapply nth_error_In; eauto|]. apply nth_error_Some. congruence.
+  - right. split; [reflexivity|]. apply nth_error_None. exact E.
+Qed.
+
+(* ---------- C19, first sentence ---------- *)
+Lemma false_until P progs s t c lc g' lc' es l m :
+  R P progs s -> nth_error (thr s) t = Some lc -> tstep P t c (gl s) lc = Some (g', lc', es) ->
+  In (Ev K_LOAD (lobj l) 1 m) es -> (0 < destroyed (gl s) l)%nat.
+Proof.
+  intros HR Hl Hs Hin. pose proof (R_Inv0 _ _ _ HR) as HI.
+  destruct (load_event _ _ _ _ _ _ _ _ _ _ _ Hs Hin) as (l0 & k & Hpc & Hob & Hv & _).
+  apply lobj_inj in Hob. subst l0.
+  apply (I_dh _ _ _ HI). intros E.
+  destruct (load_val_cases P t c l (gl s) (I_oneway _ _ _ HI l)) as [[_ Hlt]|[H0 _]].
+  - rewrite E in Hlt. cbn in Hlt. lia.
+  - rewrite H0 in Hv. discriminate.
+Qed.
+
+Lemma one_way P progs s l m : R P progs s -> In m (hs (gl s) l) -> mval m = 1.
+Proof. intros HR. apply (I_oneway _ _ _ (R_Inv0 _ _ _ HR)). Qed.
+
+Lemma store_only_true P t c g lc g' lc' es ob v m :
+  tstep P t c g lc = Some (g', lc', es) -> In (Ev K_STORE ob v m) es -> v = 1.
+Proof. intros Hs Hin. destruct (store_event _ _ _ _ _ _ _ _ _ _ _ Hs Hin) as (l & _ & _ & Hv & _). exact Hv. Qed.
+
+Lemma no_null_deref P progs s : unfixed P = false -> R P progs s -> gnull (gl s) = false.
+Proof. intros Hu HR. apply (I_null _ _ _ (R_Inv0 _ _ _ HR) Hu). Qed.
